@@ -62,6 +62,19 @@ def make_cases(ctx):
                     skey = keys[(len(h) + len(side) + dver[1]) % len(keys)]
                     yield "dsig-%s-%s-%s-%d" % (fam, h, side, dver[1]), {
                         "dsig": [fam, h, side, dver, skey]}
+    # a client that cannot say which groups it supports (SSLv3: no
+    # extensions; or simply no ECC/FFDHE groups on offer below TLS 1.3)
+    # against a server that allows a single group: whatever is negotiated
+    # lies inside the server's own lists
+    for cver in ((3, 0), (3, 1), (3, 3)):
+        for kx, kind_ in (("ecdhe_rsa", "cert"), ("ecdh_anon", "anon"),
+                          ("dhe_rsa", "cert"), ("dh_anon", "anon")):
+            groups = ["secp384r1", "secp521r1", "x25519",
+                      "brainpoolP256r1"] if "ec" in kx else \
+                ["ffdhe3072", "ffdhe4096"]
+            for g in groups:
+                yield "dnoext-%d-%s-%s" % (cver[1], kx, g), {
+                    "dnoext": [cver, kx, kind_, g]}
     # the same negotiation started through the integration helper that the
     # stdlib-client wrappers (HTTP, SMTP, POP3, IMAP, XML-RPC) share
     for flav in ("cert", "srp", "anon", "cert_clientauth"):
@@ -432,6 +445,27 @@ def run_case(ctx, cid, P):
         alpn_c = alpn_s = npn_c = npn_s = sni = None
         resume, cache = False, None
         ctx.count("directed_signature_policies")
+    elif "dnoext" in P:
+        cver, kx, kind, g = P["dnoext"]
+        cver = tuple(cver)
+        cd = {"minVersion": (3, 0), "maxVersion": cver,
+              "keyExchangeNames": [kx]}
+        if cver > (3, 0):
+            # TLS: the client offers no group of that family at all
+            cd["eccCurves" if "ec" in kx else "dhGroups"] = \
+                ["x448"] if "ec" in kx else []
+            if "ec" in kx:
+                cd["keyShares"] = []
+        sd = {"minVersion": (3, 0), "maxVersion": (3, 3),
+              "keyExchangeNames": [kx]}
+        sd["eccCurves" if "ec" in kx else "dhGroups"] = [g]
+        sd["keyShares"] = []
+        cs, ss = policy.build(cd), policy.build(sd)
+        skey = "rsa" if kind == "cert" else None
+        ckey, req_cert = None, False
+        alpn_c = alpn_s = npn_c = npn_s = sni = None
+        resume, cache = False, None
+        ctx.count("directed_no_group_offer")
     else:
         (cd, cs, sd, ss, kind, skey, ckey, req_cert, alpn_c, alpn_s, npn_c,
          npn_s, sni, resume, cache) = draw(rng)
